@@ -189,3 +189,20 @@ def register(add):
         "Trusted: zigpy.util.Requests shim; NCP model; constants read from the tree.",
         "DESIGN.md 3/C19",
     )
+    add(
+        "C17",
+        "exploration",
+        "online outcome monitor with expected outcome and instant computed from delivery timestamps; all permutations of each operation's event multiset in virtual time; listener-population and stale-listener probes after every operation",
+        "formNetwork, leaveNetwork, the application's network bring-up and startScan on the real EZSP in frame "
+        "mode.  Every order of {response (ok / three refusal statuses), matching status event, non-matching "
+        "status events, timeout expiry, caller cancellation} (and for scans {response, result callbacks, "
+        "completion ok/failed, cancellation, a result before issue}) up to 6 events is played, operations "
+        "repeated back to back.  The monitor checks outcome class and instant (return iff command ok and "
+        "matching event after issue - even before the response - and before response time + operation "
+        "timeout), scan results in order without pre-issue results, and after each operation that the "
+        "callback / listener population is back at baseline and injected events raise nothing in a handler.",
+        "Trusted: timeouts read from the tree; pre-issue status events and post-completion scan results are "
+        "unconstrained; listener counts read from private attributes when present, stale listeners also "
+        "detected through handler-exception log records.",
+        "DESIGN.md 3/C17",
+    )
